@@ -311,7 +311,7 @@ Theorem C03_pdr_witness_is_execution :
     sys_wf sy = true -> nodup_exprs (s_inputs sy) = true ->
     names_ok (enc_new sy nm) = true -> init_deps_acyclic sy ->
     forall (fuel bf : nat) (w : witness) (st' : pst slit (sstate sy) EM),
-      pdr_wit EM sy nm solve cmd_fail n_init gen_on restart_fault sv fuel bf = Ok _ _ _ _ (VFail witness w, st') ->
+      pdr_wit EM sy nm solve cmd_fail n_init gen_on restart_fault sv fuel bf = @Ok _ _ _ _ (VFail witness w, st') ->
       check_witness sy w = true /\ witness_ok sy w /\
       exists frees : list env,
         is_initial_r sy (witness_env0 sy w) /\
@@ -334,7 +334,7 @@ Theorem C03_pdr_witness_shortest :
     names_ok (enc_new sy nm) = true -> init_deps_acyclic sy ->
     forall (fuel bf : nat) (w : witness) (st' : pst slit (sstate sy) EM),
       (forall sc asserts assumps, sv_check sv sc asserts assumps = SUnsat -> ~ exists m, is_model sc asserts assumps m) ->
-      pdr_wit EM sy nm solve cmd_fail n_init gen_on restart_fault sv fuel bf = Ok _ _ _ _ (VFail witness w, st') ->
+      pdr_wit EM sy nm solve cmd_fail n_init gen_on restart_fault sv fuel bf = @Ok _ _ _ _ (VFail witness w, st') ->
       exists j, length (w_inputs w) = S j /\ (j <= MAX_FRAMES)%nat /\ reach_at sy j /\ forall m, (m < j)%nat -> ~ reach_at sy m.
 Proof. exact pdr_witness_shortest. Qed.
 Print Assumptions C03_pdr_witness_shortest.
@@ -344,8 +344,61 @@ Print Assumptions C03_pdr_witness_shortest.
     two-step witness; a failing restart is an error, a restarted solver that gives up makes the verdict
     Unknown, a failing get-value is an error. *)
 Example C03_pdr_witness_example :
-  (exists st, exw_pdr None (enum_solver unit) = Ok _ _ _ _ (VFail witness exw_witness, st)) /\
-  (match exw_pdr (Some tt) (enum_solver unit) with Err _ _ _ _ (ESolver _ tt) _ => true | _ => false end) = true /\
-  (match exw_pdr None exw_gives_up with Ok _ _ _ _ (VUnknown _, _) => true | _ => false end) = true /\
-  (match exw_pdr None exw_value_error with Err _ _ _ _ (ESolver _ tt) _ => true | _ => false end) = true.
+  (exists st, exw_pdr None (enum_solver unit) = @Ok _ _ _ _ (VFail witness exw_witness, st)) /\
+  (match exw_pdr (Some tt) (enum_solver unit) with @Err _ _ _ _ (ESolver _ tt) _ => true | _ => false end) = true /\
+  (match exw_pdr None exw_gives_up with @Ok _ _ _ _ (VUnknown _, _) => true | _ => false end) = true /\
+  (match exw_pdr None exw_value_error with @Err _ _ _ _ (ESolver _ tt) _ => true | _ => false end) = true.
 Proof. exact exw_pdr_runs. Qed.
+
+(** ** the fallback finds the witness
+
+    When the PDR part gives up blocking (the point where pdr.rs restarts the solver and calls [bmc]), a
+    bad state is reachable within the frontier depth, which is at most MAX_FRAMES
+    ([C10_pdr_model_unknown_only] / [C10_pdr_model_fail_real_sys]: the obligation chain that reached the
+    initial frame is a real execution - this needs the truthfulness of the PDR oracle and the class
+    [fin_class]).  The BMC run after the restart is exact up to MAX_FRAMES ([C02_bmc_full_exact]) when the
+    restarted solver is truthful on sat and unsat, never says unknown, never fails.  Hence, with a
+    successful restart, the composed model answers Unknown ONLY when the frame limit is exceeded: the
+    fallback never comes back empty-handed, so whenever PDR gives up blocking the verdict is Fail(w) (and
+    [w] is a real, shortest counterexample by the theorems above). *)
+From Patronus Require Import BmcFullExact PdrImplProofs.
+Theorem C03_pdr_fallback_finds_witness :
+  forall (EM : Type) (sy : sys) (nm : expr -> string)
+         (solve : nat -> PdrImpl.query slit -> PdrImpl.answer slit (sstate sy) EM) (cmd_fail : nat -> option EM)
+         (n_init : nat) (gen_on : bool) (sv : solver EM),
+    fin_class sy = true ->
+    (forall n q, truthful slit slit_eqb (sstate sy) EM (slit_holds sy) (st_bad0 sy) (st_step0 sy) (st_trans sy) (st_bad sy)
+                          q (solve n q)) ->
+    ((forall sc asserts assumps m, sv_check sv sc asserts assumps = SSat m -> is_model sc asserts assumps m) /\
+     (forall sc m s x, sv_value sv sc m s = GVal x -> x = val_of (script_eval m sc) s)) ->
+    (forall sc asserts assumps, sv_check sv sc asserts assumps = SUnsat -> ~ exists m, is_model sc asserts assumps m) ->
+    ((forall sc a b, sv_check sv sc a b <> SUnknown) /\ (forall sc a b e, sv_check sv sc a b <> SErr e) /\
+     (forall sc m s e, sv_value sv sc m s <> GErr e) /\ (forall p, sv_fault sv p = None)) ->
+    sys_wf sy = true -> nodup_exprs (s_inputs sy) = true ->
+    names_ok (enc_new sy nm) = true -> init_deps_acyclic sy ->
+    (forall k, (k <= MAX_FRAMES)%nat ->
+       signals_at (enc_new sy nm) (s_constraints sy) (N.of_nat k) <> None /\
+       signals_at (enc_new sy nm) (s_bads sy) (N.of_nat k) <> None) ->
+    forall (fuel bf : nat) (st' : pst slit (sstate sy) EM),
+      pdr_wit EM sy nm solve cmd_fail n_init gen_on None sv fuel bf = @Ok _ _ _ _ (VUnknown witness, st') ->
+      (MAX_FRAMES < length (p_frames _ _ _ st'))%nat.
+Proof. exact pdr_fallback_finds_witness. Qed.
+Print Assumptions C03_pdr_fallback_finds_witness.
+
+(** ... and the fallback neither returns an error nor panics (no hypothesis on the PDR part needed). *)
+Theorem C03_pdr_fallback_definite :
+  forall (EM : Type) (sy : sys) (nm : expr -> string) (sv : solver EM),
+    ((forall sc asserts assumps m, sv_check sv sc asserts assumps = SSat m -> is_model sc asserts assumps m) /\
+     (forall sc m s x, sv_value sv sc m s = GVal x -> x = val_of (script_eval m sc) s)) ->
+    (forall sc asserts assumps, sv_check sv sc asserts assumps = SUnsat -> ~ exists m, is_model sc asserts assumps m) ->
+    ((forall sc a b, sv_check sv sc a b <> SUnknown) /\ (forall sc a b e, sv_check sv sc a b <> SErr e) /\
+     (forall sc m s e, sv_value sv sc m s <> GErr e) /\ (forall p, sv_fault sv p = None)) ->
+    sys_wf sy = true -> nodup_exprs (s_inputs sy) = true ->
+    names_ok (enc_new sy nm) = true -> init_deps_acyclic sy ->
+    (forall k, (k <= MAX_FRAMES)%nat ->
+       signals_at (enc_new sy nm) (s_constraints sy) (N.of_nat k) <> None /\
+       signals_at (enc_new sy nm) (s_bads sy) (N.of_nat k) <> None) ->
+    forall e, fallback EM sy nm None sv <> BmcErr (option witness) EM e /\
+              fallback EM sy nm None sv <> PdrImpl.BmcFail (option witness) EM None.
+Proof. exact pdr_fallback_definite. Qed.
+Print Assumptions C03_pdr_fallback_definite.
